@@ -1803,6 +1803,303 @@ def _all_none_fields(a: Atom) -> T.Optional[T.List[str]]:
     return out
 
 
+# =============================================================================================
+# R5b symbolic permission string -> mode bits (K5: table agreement with the `ls -l` / stat.filemode notation)
+
+UNIV = 'mesonbuild/utils/universal.py'
+_B = U.STAT_CONSTS
+# reference: Python library reference, stat.filemode(); POSIX ls -l.  position -> character -> bits
+PERM_REF: T.Dict[int, T.Dict[str, int]] = {
+    0: {'r': _B['S_IRUSR']}, 1: {'w': _B['S_IWUSR']},
+    2: {'x': _B['S_IXUSR'], 'S': _B['S_ISUID'], 's': _B['S_ISUID'] | _B['S_IXUSR']},
+    3: {'r': _B['S_IRGRP']}, 4: {'w': _B['S_IWGRP']},
+    5: {'x': _B['S_IXGRP'], 'S': _B['S_ISGID'], 's': _B['S_ISGID'] | _B['S_IXGRP']},
+    6: {'r': _B['S_IROTH']}, 7: {'w': _B['S_IWOTH']},
+    8: {'x': _B['S_IXOTH'], 'T': _B['S_ISVTX'], 't': _B['S_ISVTX'] | _B['S_IXOTH']},
+}
+
+
+def _bit_names(v: int) -> str:
+    names = [n for n, b in _B.items() if bin(b).count('1') == 1 and v & b]
+    return '|'.join(sorted(names, key=lambda n: -_B[n])) or '0'
+
+
+def _pos_atom(a: Atom) -> T.Optional[T.Tuple[int, T.Set[str]]]:
+    """`ARG1[i] == 'c'` / `ARG1[i] in 'abc'` / `ARG1[i] in ('a', 'b')` -> (i, characters for which the atom is true)."""
+    if a.kind == 'cmp' and a.args[0] == 'eq':
+        subj, const = a.args[1], a.args[2]
+    elif a.kind == 'in':
+        subj, const = a.args[0], a.args[1]
+    else:
+        return None
+    try:
+        se, ce = ast.parse(subj, mode='eval').body, ast.parse(const, mode='eval').body
+    except SyntaxError:
+        return None
+    if not (isinstance(se, ast.Subscript) and norm(se.value) == 'ARG1' and isinstance(se.slice, ast.Constant) and isinstance(se.slice.value, int)):
+        return None
+    if a.kind == 'cmp':
+        if isinstance(ce, ast.Constant) and isinstance(ce.value, str) and len(ce.value) == 1:
+            return se.slice.value, {ce.value}
+        return None
+    if isinstance(ce, ast.Constant) and isinstance(ce.value, str):
+        return se.slice.value, set(ce.value)
+    if isinstance(ce, (ast.Tuple, ast.List, ast.Set)) and all(isinstance(x, ast.Constant) and isinstance(x.value, str) and len(x.value) == 1 for x in ce.elts):
+        return se.slice.value, {x.value for x in ce.elts}   # type: ignore[attr-defined]
+    return None
+
+
+def _perm_table(fn: U.FuncNode) -> T.Dict[T.Tuple[int, str], int]:
+    """(position, character) -> folded bits or-ed into the result, read from the per-position decision tables of the function."""
+    rets = [st for st in fn.body if isinstance(st, ast.Return)]
+    if len(rets) != 1 or not isinstance(rets[0].value, ast.Name) or fn.body[-1] is not rets[0]:
+        raise Undecided('perms_s_to_bits: does not end in `return <accumulator>`')
+    acc = rets[0].value.id
+    contrib: T.Dict[int, T.List[T.Tuple[T.Dict[Atom, T.Set[str]], tables.Table]]] = {}
+    init = 0
+    for st in fn.body[:-1]:
+        writes = any(isinstance(n, ast.Name) and n.id == acc and isinstance(n.ctx, ast.Store) for n in ast.walk(st))
+        if not writes:
+            continue
+        if isinstance(st, (ast.Assign, ast.AnnAssign)) and not isinstance(st, ast.If):
+            v = U.const_int(st.value) if st.value is not None else None
+            if v != 0:
+                raise Undecided(f'perms_s_to_bits: accumulator initialised with `{short(st.value)}`')
+            init += 1
+            continue
+        if not isinstance(st, ast.If):
+            raise Undecided(f'perms_s_to_bits: the accumulator is written by a statement that is not an if-chain: {short(st)}')
+        tab = tables.extract(fn, body=[st], effects=_assign_eff, inline=False, name='perms_s_to_bits')
+        atoms: T.Dict[Atom, T.Set[str]] = {}
+        poss: T.Set[int] = set()
+        for a in tab.atoms():
+            pa = _pos_atom(a)
+            if pa is None:
+                raise Undecided(f'perms_s_to_bits: test `{a!r}` is not a test of one character position of the permission string')
+            atoms[a] = pa[1]
+            poss.add(pa[0])
+        if len(poss) != 1:
+            raise Undecided(f'perms_s_to_bits: one if-chain tests positions {sorted(poss)}')
+        contrib.setdefault(poss.pop(), []).append((atoms, tab))
+    if init != 1:
+        raise Undecided('perms_s_to_bits: the accumulator is not initialised exactly once with 0')
+    out: T.Dict[T.Tuple[int, str], int] = {}
+    for pos, parts in contrib.items():
+        chars = set(PERM_REF.get(pos, {})) | {c for atoms, _ in parts for cs in atoms.values() for c in cs} | {'-'}
+        for c in sorted(chars):
+            bits = 0
+            for atoms, tab in parts:
+                rows = tab.fire({a: (c in cs) for a, cs in atoms.items()})
+                if len(rows) != 1:
+                    raise Undecided(f'perms_s_to_bits: {len(rows)} rows for character {c!r} at position {pos}')
+                if rows[0].outcome != ('fall',):
+                    raise Undecided(f'perms_s_to_bits: the chain for position {pos} leaves the function ({rows[0].outcome})')
+                for e in rows[0].effects:
+                    val = None
+                    if e.startswith(f'{acc} |= '):
+                        val = U.const_int(ast.parse(e[len(acc) + 4:], mode='eval').body)
+                    elif e.startswith(f'{acc} := '):
+                        b = ast.parse(e[len(acc) + 4:], mode='eval').body
+                        if isinstance(b, ast.BinOp) and isinstance(b.op, ast.BitOr):
+                            sides = [x for x in (b.left, b.right) if norm(x) != acc]
+                            if len(sides) == 1:
+                                val = U.const_int(sides[0])
+                    if val is None:
+                        raise Undecided(f'perms_s_to_bits: effect `{e}` is not `{acc} |= <stat constants>`')
+                    bits |= val
+            out[(pos, c)] = bits
+    return out
+
+
+R5B_EXAMPLE = """
+import stat
+class FileMode:
+    @classmethod
+    def perms_s_to_bits(cls, perms_s):
+        perms = 0
+        if perms_s[2] == 'x':
+            perms |= stat.S_IXUSR
+        elif perms_s[2] == 's':
+            perms |= stat.S_IXUSR
+            perms |= stat.S_ISGID
+        return perms
+"""
+
+
+def _perm_mismatches(got: T.Dict[T.Tuple[int, str], int]) -> T.List[T.Tuple[int, str, int, int]]:
+    out = []
+    for pos in range(9):
+        for c in sorted(set(PERM_REF[pos]) | {ch for (p_, ch) in got if p_ == pos} | {'-'}):
+            want = PERM_REF[pos].get(c, 0)
+            have = got.get((pos, c), 0)
+            if have != want:
+                out.append((pos, c, have, want))
+    return out
+
+
+def r5b(ctx: RuleCtx) -> None:
+    exm = U.synthetic_module('example/universal.py', R5B_EXAMPLE)
+    mm = _perm_mismatches(_perm_table(exm.func('FileMode.perms_s_to_bits')))
+    if (2, 's', _B['S_IXUSR'] | _B['S_ISGID'], _B['S_IXUSR'] | _B['S_ISUID']) not in mm or any(p_ == 2 and c == 'x' for p_, c, _, _ in mm):
+        raise AnalysisError(f'C11.R5b built-in example not recognised: {mm}')
+    ctx.ok("built-in example: 's' in the owner triad or-ing S_ISGID is flagged, 'x' -> S_IXUSR is clean", nontrivial=False)
+    mod = ctx.repo.module(UNIV)
+    fn = mod.func('FileMode.perms_s_to_bits')
+    got = _perm_table(fn)
+    ctx.floor('(position, character) entries read from perms_s_to_bits', len(got), 24)
+    bad = {(p_, c) for p_, c, _, _ in _perm_mismatches(got)}
+    for p_, c, have, want in _perm_mismatches(got):
+        triad = ('owner', 'group', 'others')[p_ // 3]
+        ctx.violation(mod, 'FileMode.perms_s_to_bits', f'perms_s[{p_}] == {c!r}',
+                      f'character {c!r} at position {p_} ({triad} triad) contributes {_bit_names(have)}; in the stat.filemode / `ls -l` notation it means {_bit_names(want)} '
+                      f'(e.g. install_mode {"".join(c if i == p_ else "rwxr-xr-x"[i] for i in range(9))!r} installs with the wrong special/permission bits)', fn)
+    for pos in range(9):
+        for c in sorted(set(PERM_REF[pos]) | {'-'}):
+            if (pos, c) not in bad:
+                ctx.ok(f'perms_s[{pos}] == {c!r} -> {_bit_names(PERM_REF[pos].get(c, 0))}')
+    # the validation regex admits exactly the characters the table gives a meaning to
+    from ..consteval import fold_expr, Regex
+    from .. import rx
+    rxv = fold_expr(ctx.repo, mod, mod.assign_value('symbolic_perms_regex', mod.cls('FileMode')))
+    if not isinstance(rxv, Regex):
+        raise Undecided('FileMode.symbolic_perms_regex does not fold to a regular expression')
+    items = [it for it in rx.parse(rxv.pattern, rxv.flags)]
+    if len(items) != 9 or any(str(op) != 'IN' for op, _ in items):
+        raise Undecided(f'symbolic_perms_regex is not nine character classes: {rxv.pattern!r}')
+    universe = 'rwxsStT-' + 'abcdefghijklmnopquvyzRWXA0-9 '
+    for pos, (_, av) in enumerate(items):
+        adm = rx.class_chars(av, set(universe))
+        want = set(PERM_REF[pos]) | {'-'}
+        ctx.require(adm == want, f'regex position {pos} admits exactly {sorted(want)}', mod, 'FileMode', f'symbolic_perms_regex[{pos}]',
+                    f'the validation regex admits {sorted(adm)} at position {pos}; the notation (and the bit table) knows {sorted(want)}: '
+                    f'{"an admitted character is silently ignored" if adm - want else "a documented character is rejected"}')
+    # FileMode.perms is the table applied to the declared string, nothing else writes it
+    writers = [(q, n) for q, f in mod.funcs().items() if q.startswith('FileMode.') for n in ast.walk(f)
+               if isinstance(n, ast.Assign) and any(isinstance(t, ast.Attribute) and t.attr == 'perms' and norm(t.value) == 'self' for t in n.targets)]
+    init = mod.func('FileMode.__init__')
+    ps = U.params_of(init)
+    ok = len(writers) == 1 and writers[0][0] == 'FileMode.__init__' and isinstance(writers[0][1].value, ast.Call) \
+        and norm(writers[0][1].value.func) in ('self.perms_s_to_bits', 'FileMode.perms_s_to_bits', 'type(self).perms_s_to_bits') \
+        and len(writers[0][1].value.args) == 1 and norm(writers[0][1].value.args[0]) in ps + ['self.perms_s']
+    ctx.require(ok, 'FileMode.perms is written once, as perms_s_to_bits(<declared string>)', mod, 'FileMode.__init__', writers[0][1] if writers else init,
+                'FileMode.perms is not (only) the converted install_mode string: set_mode would chmod to something the build definition did not declare')
+
+
+# =============================================================================================
+# R6 remove-before-create: the existence probe of a symlink destination must not follow symlinks
+
+PROBES_NOFOLLOW = {'os.path.lexists', 'os.path.islink'}
+PROBES_FOLLOW = {'os.path.exists', 'os.path.isfile', 'os.path.isdir'}
+# what each probe answers for the kinds of entry that may already sit at the destination (os.path documentation)
+ENTRY_KINDS: T.Dict[str, T.Dict[str, bool]] = {
+    'a dangling symlink': {'lexists': True, 'islink': True, 'exists': False, 'isfile': False, 'isdir': False},
+    'a symlink to a file': {'lexists': True, 'islink': True, 'exists': True, 'isfile': True, 'isdir': False},
+    'a symlink to a directory': {'lexists': True, 'islink': True, 'exists': True, 'isfile': False, 'isdir': True},
+    'a regular file': {'lexists': True, 'islink': False, 'exists': True, 'isfile': True, 'isdir': False},
+    'a directory': {'lexists': True, 'islink': False, 'exists': True, 'isfile': False, 'isdir': True},
+}
+
+R6_EXAMPLE = """
+import os
+class DirMaker:
+    def __init__(self, lf, makedirs):
+        self.makedirs_impl = makedirs
+class Installer:
+    def remove(self, *args, **kwargs):
+        if not self.dry_run:
+            os.remove(*args, **kwargs)
+    def symlink(self, *args, **kwargs):
+        if not self.dry_run:
+            os.symlink(*args, **kwargs)
+    def good(self, target, link):
+        if os.path.islink(link) or os.path.exists(link):
+            self.remove(link)
+        self.symlink(target, link)
+    def bad(self, target, link):
+        if os.path.exists(link):
+            self.remove(link)
+        self.symlink(target, link)
+"""
+
+
+class LinkSite(T.NamedTuple):
+    method: str
+    call: ast.Call
+    dest: str
+    failing: T.List[str]        # entry kinds for which creation is reachable without removal
+    probes: T.List[str]
+
+
+def _symlink_sites(m: Model) -> T.List[LinkSite]:
+    mod = m.mod
+    wr = m.dry.wrappers()
+    linkers = {w for w, ss in wr.items() if {s.ref.name for s in ss} & {'os.symlink'}}
+    removers = {w for w, ss in wr.items() if {s.ref.name for s in ss} <= {'os.remove', 'os.unlink'}}
+    out: T.List[LinkSite] = []
+    for name, fn in m.inst.items():
+        if name in wr:
+            continue
+        for c in calls_in(fn):
+            if _self_method(c) not in linkers:
+                continue
+            if len(c.args) < 2:
+                raise Undecided(f'Installer.{name}: symlink call shape {short(c)}')
+            d = c.args[1]
+            if not (isinstance(d, ast.Name) and d.id in U.params_of(fn) and not Flow(fn, nested=False).defs.get(d.id)):
+                raise Undecided(f'Installer.{name}: symlink destination `{short(d)}` is not an unmodified parameter')
+            dest = d.id
+            cfg = CFG(fn)
+            rem = [n for n in cfg.nodes_with_call(lambda x: _self_method(x) in removers and len(x.args) == 1 and norm(x.args[0]) == dest)]
+            probes: T.Dict[str, str] = {}
+            for x in calls_in(fn):
+                dn = U.dotted(mod, x.func)
+                if dn in PROBES_FOLLOW | PROBES_NOFOLLOW and len(x.args) == 1 and norm(x.args[0]) == dest:
+                    probes[norm(x)] = dn.rsplit('.', 1)[1]
+            alias = U.single_def_aliases(fn)
+            cnodes = U.node_of(cfg, c)
+            free = U.feasible_reach(cfg, [cfg.entry], {k: False for k in probes}, alias, avoid=rem)
+            if not any(n.id in free for n in cnodes):
+                raise Undecided(f'Installer.{name}: the symlink is not created even when nothing exists at `{dest}`')
+            failing = []
+            for kind, ans in ENTRY_KINDS.items():
+                facts = {k: ans[p] for k, p in probes.items()}
+                reach = U.feasible_reach(cfg, [cfg.entry], facts, alias, avoid=rem)
+                if any(n.id in reach for n in cnodes):
+                    failing.append(kind)
+            out.append(LinkSite(name, c, dest, failing, sorted(set(probes.values()))))
+    return out
+
+
+def r6(ctx: RuleCtx) -> None:
+    ex = {s.method: s.failing for s in _symlink_sites(Model(U.synthetic_module('example/minstall.py', R6_EXAMPLE)))}
+    if ex != {'good': [], 'bad': ['a dangling symlink']}:
+        raise AnalysisError(f'C11.R6 built-in example not recognised: {ex}')
+    ctx.ok('built-in example: `exists(link)` before remove+symlink misses a dangling link; `islink(link) or exists(link)` is clean', nontrivial=False)
+    m = _model(ctx)
+    mod = m.mod
+    sites = _symlink_sites(m)
+    ctx.floor('symlink creation sites in Installer', len(sites), 1)
+    for s in sites:
+        ctx.require(not s.failing, f'Installer.{s.method}: whatever already sits at `{s.dest}` ({len(ENTRY_KINDS)} entry kinds, probes {s.probes}) is removed or rejected before {short(s.call, 40)}',
+                    mod, f'Installer.{s.method}', s.call,
+                    f'when {" / ".join(s.failing)} already exists at `{s.dest}`, self.symlink(...) is reached without self.remove({s.dest}) (probes used: {s.probes}; '
+                    f'exists/isfile/isdir follow symlinks): os.symlink raises FileExistsError, the handler reports "symlinks unsupported", nothing is logged - '
+                    f'a second install no longer produces the same tree and log', s.call)
+    # information: other remove-before-create sites whose probe follows symlinks
+    wr = m.dry.wrappers()
+    removers = {w for w, ss in wr.items() if {x.ref.name for x in ss} <= {'os.remove', 'os.unlink'}}
+    for name, fn in m.inst.items():
+        if name in wr or any(s.method == name for s in sites):
+            continue
+        for c in calls_in(fn):
+            if _self_method(c) in removers and len(c.args) == 1:
+                d = norm(c.args[0])
+                used = sorted({U.dotted(mod, x.func).rsplit('.', 1)[1] for x in calls_in(fn)   # type: ignore[union-attr]
+                               if U.dotted(mod, x.func) in PROBES_FOLLOW | PROBES_NOFOLLOW and len(x.args) == 1 and norm(x.args[0]) == d})
+                ctx.note(f'not decided: Installer.{name} removes `{d}` before re-creating it under probes {used} '
+                         f'({"follows symlinks: a dangling link at the destination is not removed" if "lexists" not in used else "no-follow probe present"})')
+
+
 RULES = [
     Rule('C11.R1', 'mutating calls only in dry-run wrappers', r1),
     Rule('C11.R2', 'destinations rooted under DESTDIR', r2),
@@ -1812,4 +2109,6 @@ RULES = [
     Rule('C11.R4a', 'creations are logged; DirMaker records and emits deepest-first', r4a),
     Rule('C11.R4b', 'uninstall reader is the inverse of the log writer', r4b),
     Rule('C11.R5', 'set_mode / sanitize_permissions / umask tables', r5),
+    Rule('C11.R5b', 'install_mode string -> mode bits table (ls -l notation)', r5b),
+    Rule('C11.R6', 'pre-existing entry at a symlink destination is removed under a no-follow probe', r6),
 ]
